@@ -607,6 +607,16 @@ func rnd64(r *rand.Rand) uint64 {
 	return r.Uint64()
 }
 
+// vendorTag builds a data-format tag with a non-zero enterprise number (upper
+// 20 bits) and one of the given format numbers (lower 12 bits).
+func vendorTag(r *rand.Rand, formats []uint32) uint32 {
+	ent := uint32(1 + r.Intn(1<<20-1))
+	if r.Intn(4) == 0 {
+		ent = []uint32{1, 9, 4413, 1<<20 - 1}[r.Intn(4)]
+	}
+	return ent<<12 | formats[r.Intn(len(formats))]&0xfff
+}
+
 // GenSFDatagram generates a well-formed datagram of any mix of samples.
 func GenSFDatagram(r *rand.Rand, seq, subID uint32, maxSize int) *SFDatagram {
 	d := &SFDatagram{SubID: subID, Seq: seq, Uptime: rnd32(r)}
@@ -642,6 +652,10 @@ func GenSFDatagram(r *rand.Rand, seq, subID uint32, maxSize int) *SFDatagram {
 					if f := s.Records[len(s.Records)-1].Format; f == 1001 || f == 1002 {
 						s.Records[len(s.Records)-1].Format = 7
 					}
+					if r.Intn(3) == 0 {
+						// an enterprise-specific record whose format number collides with a standard one
+						s.Records[len(s.Records)-1].Format = vendorTag(r, []uint32{1, 2, 1001, 1002, 7})
+					}
 				}
 			}
 		case 2, 3:
@@ -652,6 +666,9 @@ func GenSFDatagram(r *rand.Rand, seq, subID uint32, maxSize int) *SFDatagram {
 					s.Records = append(s.Records, SFRecord{Format: uint32(6 + r.Intn(900)), Unknown: rndBytes(r, 4*r.Intn(8))})
 					if s.Records[len(s.Records)-1].Format == 1001 {
 						s.Records[len(s.Records)-1].Format = 9
+					}
+					if r.Intn(3) == 0 {
+						s.Records[len(s.Records)-1].Format = vendorTag(r, []uint32{1, 2, 3, 4, 5, 1001, 9})
 					}
 					continue
 				}
@@ -668,6 +685,10 @@ func GenSFDatagram(r *rand.Rand, seq, subID uint32, maxSize int) *SFDatagram {
 			}
 		default:
 			s.Format = []uint32{3, 4, 5, 7, 100, 4095}[r.Intn(6)]
+			if r.Intn(3) == 0 {
+				// an enterprise-specific sample type, also with the format number of a standard one
+				s.Format = vendorTag(r, []uint32{1, 2, 3, 4, 7})
+			}
 			s.Unknown = rndBytes(r, 4*r.Intn(12))
 		}
 		d.Samples = append(d.Samples, s)
